@@ -191,3 +191,10 @@ def run(cx):
         r = cx.retval(b)
         cx.ob('ORDER', 'unique_vertices:sorted', match('(mut slice::sort_unstable . (call Itertools::collect_vec _))', r) is not None or match('(mut slice::sort . _)', r) is not None,
               'the unique vertex list is sorted before use (hash order cannot leak into vertex numbering)', where=b.file, found=r)
+
+
+def run_thorough(cx):
+    """thorough tier: the generic evaluators this property relies on must fire on their positive fixture twins"""
+    from rules import fixture_check as FX
+    FX.memo(cx)
+    FX.enc(cx)
